@@ -277,7 +277,7 @@ def rule_iter_map_collect(text, ctx, where):
         b = mt.end() - 1
         e = match_delim(m, b)
         pat, body = _split_closure(text[b + 1:e])
-        m2 = re.match(r"\s*\.collect(::<[^>]*>)?\(\)", m[e + 1:])
+        m2 = re.match(r"\s*\.collect(::<[^()]*?>)?\(\)", m[e + 1:])
         if not m2:
             raise AnchorLost(f"{where}: iter().map(..) not followed by .collect()")
         end = e + 1 + m2.end()
